@@ -77,5 +77,71 @@ func minScenarios() []caseSpec {
 				Iters: [][]iterSpec{nil}})
 		}
 	}
+
+	// 5. narrowed frames through a writer with two kinds of targets: the second frame is
+	// built from every key of the writer and narrowed to one target's keys, so the other
+	// target's series sit masked in the raw slices. Nothing masked may be stored.
+	type combo struct {
+		name   string
+		groups []groupSpec
+		free   bool
+		keep   int // index into session groups of the group the second frame is narrowed to (-1: the free channel)
+	}
+	combos := []combo{
+		{"gateway+peer keep gateway", []groupSpec{grp(1, "g"), grp(2, "p")}, false, 0},
+		{"gateway+peer keep peer", []groupSpec{grp(1, "g"), grp(2, "p")}, false, 1},
+		{"gateway+free keep free", []groupSpec{grp(1, "g")}, true, -1},
+		{"peer+free keep free", []groupSpec{grp(2, "p")}, true, -1},
+		{"peer+free keep peer", []groupSpec{grp(2, "p")}, true, 0},
+	}
+	for _, cb := range combos {
+		for _, mode := range []string{"keep", "exclude", "masked-append"} {
+			// deep copy: every case fills in its own channel keys
+			groups := make([]groupSpec, len(cb.groups))
+			for i, g := range cb.groups {
+				groups[i] = g
+				groups[i].Data = append([]chanSpec(nil), g.Data...)
+			}
+			cs := caseSpec{Nodes: 2, Groups: groups, UnknownVia: 1, FreeVia: 1}
+			ss := sessionSpec{Gateway: 1, Start: t0, Sync: true, AutoCommit: true}
+			first := frameSpec{}
+			for g := range cb.groups {
+				ss.Groups = append(ss.Groups, g)
+				ss.DataSel = append(ss.DataSel, []int{0})
+				first.Groups = append(first.Groups, g)
+				first.Rows = append(first.Rows, rowsFrom(t0, 2))
+			}
+			if cb.free {
+				cs.Free = []chanSpec{{Name: "fr", DataType: "float32"}}
+				ss.Free = []int{0}
+				first.FreeLens = []int{1}
+			}
+			second := frameSpec{Build: buildSpec{Mode: mode, DecoyRows: 2}}
+			for g := range cb.groups {
+				if g == cb.keep {
+					second.Groups = append(second.Groups, g)
+					second.Rows = append(second.Rows, rowsFrom(t0+5000, 2))
+				} else {
+					second.Build.DecoySessionGroups = append(second.Build.DecoySessionGroups, g)
+				}
+			}
+			if cb.free {
+				if cb.keep == -1 {
+					second.FreeLens = []int{2}
+				} else {
+					second.FreeLens = []int{0}
+					second.Build.DecoyFree = []int{0}
+				}
+			}
+			ss.Frames = []frameSpec{first, second}
+			cs.Sessions = []sessionSpec{ss}
+			var refs []chanRef
+			for g := range cb.groups {
+				refs = append(refs, chanRef{g, -1}, chanRef{g, 0})
+			}
+			cs.Iters = [][]iterSpec{{fullIter(1, refs...), fullIter(2, refs...)}}
+			out = append(out, cs)
+		}
+	}
 	return out
 }
